@@ -672,6 +672,7 @@ func (c *Client) Do(ctx context.Context, q Query) (err error) {
 	done := make(chan struct{})
 	var (
 		gotException atomic.Bool
+		receiveErr   atomic.Bool
 		colInfo      chan proto.ColInfoInput
 	)
 	if q.Result == nil && len(q.Input) > 0 {
@@ -721,12 +722,20 @@ func (c *Client) Do(ctx context.Context, q Query) (err error) {
 		}
 		return nil
 	})
-	g.Go(func() error {
+	g.Go(func() (rerr error) {
 		// Receiving query result, data and telemetry.
 		defer close(done)
 		if colInfo != nil {
 			defer close(colInfo)
 		}
+		defer func() {
+			// Should be set before done is closed: the group context is
+			// canceled only after this function returns, so it can't be
+			// used to detect failure right after done.
+			if rerr != nil {
+				receiveErr.Store(true)
+			}
+		}()
 		onResult := c.resultHandler(q)
 		for {
 			if ctx.Err() != nil {
@@ -765,8 +774,13 @@ func (c *Client) Do(ctx context.Context, q Query) (err error) {
 	g.Go(func() error {
 		<-done
 		// Handling query cancellation if needed.
-		if ctx.Err() != nil && !gotException.Load() {
+		if (ctx.Err() != nil || receiveErr.Load()) && !gotException.Load() {
+			// Server stream was not read to the end, so connection can't be
+			// reused and should be closed.
 			err := multierr.Append(ctx.Err(), c.cancelQuery())
+			if err == nil {
+				return nil
+			}
 			return errors.Wrap(err, "canceled")
 		}
 		return nil
